@@ -107,7 +107,12 @@ pub fn record(seed: u64, nev: usize, out: &str, maxlen: i64) {
         let r = guard(|| vec![mean(&x), welford_mean(&x), var(&x), sample_var(&x), covariance(&x, &y), sample_covariance(&x, &y),
                               sample_covariance_onepass(&x, &y), sample_covariance_online(&x, &y), min(&x), max(&x), argmin(&x) as f64, argmax(&x) as f64]);
         match r {
-            Some(r) => t.emit(json!({"x": projs(&x, 1), "y": projs(&y, 1), "out": "ok", "res": projrs(&r, 2000000)})),
+            Some(r) => {
+                // residual exponents relative to the data scale (means) / its square (second moments)
+                let sc = x.iter().chain(y.iter()).fold(1.0f64, |m, t| m.max(t.abs()));
+                let res: Vec<Value> = r.iter().enumerate().map(|(i, v)| projr_scaled_by(*v, 2000000, if i < 2 { sc } else if i < 8 { sc * sc } else { 0.0 })).collect();
+                t.emit(json!({"x": projs(&x, 1), "y": projs(&y, 1), "out": "ok", "res": res}))
+            }
             None => t.emit(json!({"x": projs(&x, 1), "y": projs(&y, 1), "out": "panic", "res": []})),
         }
     }
